@@ -536,16 +536,6 @@ impl Client {
     }
 }
 
-thread_local! { static SLOW: std::cell::RefCell<String> = const { std::cell::RefCell::new(String::new()) }; }
-struct StepTimer(std::time::Instant, usize);
-impl Drop for StepTimer {
-    fn drop(&mut self) {
-        if std::env::var("VERIF_C25_SLOW").is_ok() && self.0.elapsed().as_millis() > 300 {
-            eprintln!("slow step {} ms (after `{}`)", self.0.elapsed().as_millis(), SLOW.with(|c| c.borrow().clone()));
-        }
-    }
-}
-
 /// what the harness remembers about the text that filled a cache entry
 #[derive(Clone, Debug)]
 struct Stored {
@@ -813,11 +803,6 @@ impl Check for C25 {
         }
 
         for (si, step) in case.steps.iter().enumerate() {
-            let t_step = std::time::Instant::now();
-            let _guard = StepTimer(t_step, log.len());
-            if let Some(l) = log.last() {
-                SLOW.with(|c| *c.borrow_mut() = l.clone());
-            }
             match step {
                 Step::Write(wr) => {
                     for q in wr.sql() {
